@@ -43,7 +43,8 @@ METHODS = ['cosine', 'corr', 'rho-a']
 
 # ----------------------------------------------------------------------------- data and models
 def make_data(n_rdm, n_cond, seed, container='list'):
-    d = selfdesc.build(list(range(n_rdm)), list(range(n_cond)), container=container)
+    d = selfdesc.build(list(range(n_rdm)), list(range(n_cond)), container=container,
+                       rdm_desc=('rid', 'grp', 'rname', 'rsub', 'rtime'))
     g = rng_for(seed, 'c04data', n_rdm, n_cond)
     d.dissimilarities = np.round(g.uniform(0.2, 3.0, size=d.dissimilarities.shape), 3)
     return d
@@ -343,6 +344,20 @@ def configs(tier):
             out.append({'routine': 'eval_dual_bootstrap', 'n_rdm': 3, 'n_cond': 6, 'method': 'cosine', 'k_pattern': 2,
                         'k_rdm': 1, 'n_cv': ncv, 'N': 3, 'rdm_desc': 'index', 'pat_desc': 'index',
                         'models': ['fixed', 'fitted'], 'use_correction': True})
+    # LARGE stacks: 20 groups of two RDMs with string / large float labels (numpy switches algorithms with size,
+    # e.g. in membership tests of the selection helpers): ceilings and dof against the same references
+    for rd in ('rsub', 'rtime'):
+        for routine, bnc in (('eval_bootstrap_pattern', True), ('eval_bootstrap_pattern', False),
+                             ('eval_bootstrap_rdm', False)):
+            out.append({'routine': routine, 'n_rdm': 40, 'n_cond': 4, 'method': 'cosine', 'rdm_desc': rd,
+                        'pat_desc': 'index', 'N': 2, 'boot_noise_ceil': bnc, 'models': ['fixed', 'weighted'],
+                        'large': True})
+    # every boot_type with grouped descriptors on the resampled factor(s): dof = resampled groups - 1
+    for bt, rd, pdn in (('pattern', 'index', 'pgrp'), ('rdm', 'grp', 'index'), ('both', 'grp', 'pgrp'),
+                        ('pattern', 'grp', 'pgrp'), ('rdm', 'grp', 'pgrp')):
+        out.append({'routine': 'bootstrap_crossval', 'n_rdm': 4, 'n_cond': 12, 'method': 'cosine', 'boot_type': bt,
+                    'k_pattern': 2, 'k_rdm': 1, 'n_cv': 1, 'N': 2, 'rdm_desc': rd, 'pat_desc': pdn,
+                    'models': ['fixed', 'fitted']})
     # grouped descriptors for the cross-validated bootstrap (dof / grouping)
     out.append({'routine': 'bootstrap_crossval', 'n_rdm': 4, 'n_cond': 6, 'method': 'cosine', 'boot_type': 'both',
                 'k_pattern': 2, 'k_rdm': 1, 'n_cv': 1, 'N': 2, 'rdm_desc': 'grp', 'pat_desc': 'index',
@@ -921,6 +936,8 @@ def run_shard(shard, ctx):
         # the answers fixed by the shard's root (the first two RDM draws) do not use up the budget: an RDM
         # has to be left out AND three conditions for a resample to be evaluable
         bound += sum(1 for c in shard['root'] if c)
+    elif cfg.get('large'):
+        bound, mx = 1, 1000
     elif r.startswith('eval_bootstrap'):
         bound, mx = (None, 40000) if (_is_full(cfg) or cfg.get('menu3')) else ((1 if ctx.tier == 'quick' else 2), 6000)
     elif r == 'crossval':
